@@ -4,7 +4,7 @@
 // non-occa exception, abort or CPU-time-out of the child is a concrete failing input.
 //
 //   fuzz_okl run   [--cpu S] FILE...                      one line per file:  <file>\t<status>\t<signature>\t<acc>/<reached>
-//   fuzz_okl fuzz  --seed N --corpus DIR --out DIR (--iters K | --secs T) [--cpu S] [--raw] [--maxlen B]
+//   fuzz_okl fuzz  --seed N --corpus DIR --out DIR (--iters K | --secs T) [--cpu S] [--raw] [--maxlen B]   (budget counts after the seed pass)
 //                                                          seeded grammar-aware mutation loop (coverage-guided when the
 //                                                          library is built with clang -fsanitize=fuzzer-no-link)
 //   fuzz_okl min   --sig SIG [--cpu S] IN OUT              delta-debug IN (lines, tokens, bytes) keeping signature SIG
@@ -265,7 +265,7 @@ static Outcome classify(int status, const std::string &log) {
         o.sig = "abort:uncaught " + log.substr(t + 48, e - t - 48) + " in " + firstOccaFrame(log, a);
       } else o.sig = "abort in " + firstOccaFrame(log, a);
     }
-    o.detail = log.substr(a, 1500);
+    o.detail = log.substr(a, getenv("FUZZ_VERBOSE") ? 30000 : 1500);
     return o;
   }
   // UBSan (non-fatal reports)
@@ -945,7 +945,8 @@ int main(int argc, char **argv) {
         if (!calibrated) {
           calibrated = true;
           limit = std::max<long>(cpuLimit, (100 * maxMs + 999) / 1000);
-          printf("CALIBRATION\tslowest_seed_ms=%ld\tcpu_limit_s=%d\n", maxMs, limit); fflush(stdout);
+          printf("CALIBRATION\tslowest_seed_ms=%ld\tcpu_limit_s=%d\tseed_pass_s=%.1f\n", maxMs, limit, elapsed()); fflush(stdout);
+          clock_gettime(CLOCK_MONOTONIC, &t0);     // the time budget is for the mutation phase
         }
         if (iters >= 0 && produced >= iters) break;
         if (secs >= 0 && elapsed() >= secs) break;
